@@ -1,7 +1,8 @@
 (** C25 — streaming delivers every file once and conserves statistics (model: Model/Stream.v).
     [deliver maxsz evs] = the messages put on the gRPC stream when the shards produce the results [evs]
     (samplingSender.Send for each, then Flush; every forwarded event through gRPCChunkSender / chunk.SendAll). *)
-From ZV Require Import Lib.Base Model.Stream Proofs.Stream.
+From ZV Require Import Lib.Base Model.Stream Model.StreamCollect Proofs.Stream Proofs.StreamCollect.
+From Coq Require Import Permutation.
 Open Scope Z_scope.
 
 (** every file match is delivered exactly once and in the order produced — for every event list *)
@@ -49,6 +50,29 @@ Theorem C25_stats_conserved_needs_nonneg_refuted : exists (evs : list event),
 Proof. exists [mkev [] (mkstats [-5] 0 0%N) (Some 0) (Some 0)]. vm_compute. discriminate. Qed.
 Print Assumptions C25_stats_conserved_needs_nonneg_refuted.
 
+(** ---- with the collect stage in front (search/aggregate.go: newFlushCollectSender), for EVERY flush point
+    (timer after k results, or only the final flush) and any ranking function that permutes its input:
+    shards -> flushCollectSender -> samplingSender -> gRPCChunkSender -> stream *)
+Theorem C25_collect_stats_conserved : forall (rank : list file -> list file) (maxsz : N) (i : nat) (fp : option nat) (evs : list event),
+  Forall (fun e => Forall (fun x => 0 <= x) (st_cnt (ev_stats e))) evs ->
+  zsum (msg_cnt i) (deliver_fc rank maxsz fp evs) = zsum (ev_cnt i) evs.
+Proof. exact deliver_fc_cnt. Qed.
+Print Assumptions C25_collect_stats_conserved.
+
+(** every file is delivered exactly once (the delivered files are a permutation of the produced files; what is
+    produced after the flush point is delivered in the order produced, after the ranked aggregate) *)
+Theorem C25_collect_files_exactly_once : forall (rank : list file -> list file),
+  (forall l, Permutation (rank l) l) ->
+  forall (maxsz : N) (fp : option nat) (evs : list event),
+  Permutation (concat (map m_files (deliver_fc rank maxsz fp evs))) (concat (map ev_files evs))
+  /\ (forall k, fp = Some k -> exists pre, Permutation pre (concat (map ev_files (firstn k evs)))
+        /\ concat (map m_files (deliver_fc rank maxsz fp evs)) = pre ++ concat (map ev_files (skipn k evs))).
+Proof.
+  intros rank Hr maxsz fp evs. split; [exact (deliver_fc_files rank Hr maxsz fp evs)|].
+  intros k E. subst fp. exact (deliver_fc_files_order rank Hr maxsz k evs).
+Qed.
+Print Assumptions C25_collect_files_exactly_once.
+
 (** ---- non-vacuity *)
 Definition ex_ev_stats (k : Z) : event := mkev [] (mkstats [k; 1] 7 0%N) (Some 3) (Some 1).
 Definition ex_evs : list event :=
@@ -72,3 +96,12 @@ Example C25_ex_huge_first :
   map (fun m => (map fst (m_files m), option_map st_cnt (m_stats m))) (deliver 1048576 [mkev [(1%N, 1048576%N); (2%N, 5%N)] (mkstats [1] 0 0%N) (Some 0) (Some 0)])
   = [([], Some [1]); ([1%N], None); ([2%N], None)].
 Proof. vm_compute. reflexivity. Qed.
+Example C25_ex_collect :
+  map (fun m => (map fst (m_files m), option_map st_cnt (m_stats m), option_map st_fr (m_stats m)))
+      (deliver_fc sort_files 1048576 (Some 2%nat)
+         [mkev [(3%N, 10%N)] (mkstats [1; 0] 0 0%N) (Some 1) (Some 9); mkev [(1%N, 10%N); (2%N, 10%N)] (mkstats [2; 5] 0 4%N) (Some 7) (Some 8);
+          mkev [(4%N, 10%N)] (mkstats [10; 0] 0 0%N) (Some 2) (Some 3)])
+  = [([1%N; 2%N; 3%N], Some [3; 5], Some 1%N); ([4%N], Some [10; 0], Some 0%N)].
+Proof. vm_compute. reflexivity. Qed.
+Example C25_ex_rank_perm : Permutation (sort_files [(2%N, 0%N); (1%N, 0%N)]) [(2%N, 0%N); (1%N, 0%N)].
+Proof. vm_compute. apply perm_swap. Qed.
